@@ -12,7 +12,7 @@ package http2
 //@ pure func isStreamErr(err error, id int, code int) bool = err.(StreamError) && unbox(StreamError, err).StreamID == id && unbox(StreamError, err).Code == code
 
 //@ -- Frame is a sealed interface (unexported method); every implementation embeds FrameHeader and inherits Header().
-//@ pure func hdrOf(f Frame) FrameHeader = ite(isptr(DataFrame, f), val(unboxptr(DataFrame, f).FrameHeader), ite(isptr(HeadersFrame, f), val(unboxptr(HeadersFrame, f).FrameHeader), ite(isptr(PriorityFrame, f), val(unboxptr(PriorityFrame, f).FrameHeader), ite(isptr(RSTStreamFrame, f), val(unboxptr(RSTStreamFrame, f).FrameHeader), ite(isptr(SettingsFrame, f), val(unboxptr(SettingsFrame, f).FrameHeader), ite(isptr(PushPromiseFrame, f), val(unboxptr(PushPromiseFrame, f).FrameHeader), ite(isptr(PingFrame, f), val(unboxptr(PingFrame, f).FrameHeader), ite(isptr(GoAwayFrame, f), val(unboxptr(GoAwayFrame, f).FrameHeader), ite(isptr(WindowUpdateFrame, f), val(unboxptr(WindowUpdateFrame, f).FrameHeader), ite(isptr(ContinuationFrame, f), val(unboxptr(ContinuationFrame, f).FrameHeader), val(unboxptr(UnknownFrame, f).FrameHeader)))))))))))
+//@ pure func hdrOf(f Frame) FrameHeader = ite(isptr(MetaHeadersFrame, f), val(unboxptr(MetaHeadersFrame, f).HeadersFrame.FrameHeader), ite(isptr(DataFrame, f), val(unboxptr(DataFrame, f).FrameHeader), ite(isptr(HeadersFrame, f), val(unboxptr(HeadersFrame, f).FrameHeader), ite(isptr(PriorityFrame, f), val(unboxptr(PriorityFrame, f).FrameHeader), ite(isptr(RSTStreamFrame, f), val(unboxptr(RSTStreamFrame, f).FrameHeader), ite(isptr(SettingsFrame, f), val(unboxptr(SettingsFrame, f).FrameHeader), ite(isptr(PushPromiseFrame, f), val(unboxptr(PushPromiseFrame, f).FrameHeader), ite(isptr(PingFrame, f), val(unboxptr(PingFrame, f).FrameHeader), ite(isptr(GoAwayFrame, f), val(unboxptr(GoAwayFrame, f).FrameHeader), ite(isptr(WindowUpdateFrame, f), val(unboxptr(WindowUpdateFrame, f).FrameHeader), ite(isptr(ContinuationFrame, f), val(unboxptr(ContinuationFrame, f).FrameHeader), val(unboxptr(UnknownFrame, f).FrameHeader))))))))))))
 
 
 //@ func Flags.Has
